@@ -7,7 +7,9 @@ type MaxNode struct {
 	Max   int
 }
 
-func (self *MaxNode) CheckContainerPreConstraints(r *ChildRequest) (bool, error) {
+// counts the containers that are there and that every other constraint let
+// through, not the ones the schema merely allows
+func (self *MaxNode) CheckContainerPostConstraints(r ChildRequest, child *Selection) (bool, error) {
 	if r.IsNavigation() {
 		return true, nil
 	}
